@@ -360,11 +360,22 @@ def _same_selection(res, a, b, what, case):
     return True
 
 
+def _api(res, fn, case, what):
+    try:
+        return fn()
+    except BaseException as e:
+        res.violation("api-build:%s:%s" % (what, type(e).__name__), "building the API-side %s raised %r" % (what, e), case,
+                      observed=repr(e))
+        return None
+
+
 def check_part(res, p, spec, key):
     res.count("evaluations")
     res.state(*key)
     case = {"kind": "part", "part": p, "spec": spec}
-    built = T.build_part(p)
+    built = _api(res, lambda: T.build_part(p), case, "part")
+    if built is None:
+        return
     res.count("transitions")
     try:
         parsed = ContainerValue.from_spec(fresh(spec))
@@ -391,6 +402,9 @@ def check_path(res, pt, key_spelling, style, key):
         built = T.build_path(pt)
     except ValueError:
         res.note("modifier refused at build")
+        return
+    except BaseException as e:
+        res.violation("api-build:path:%s" % type(e).__name__, "building %s raised %r" % (T.show(pt), e), case, observed=repr(e))
         return
     try:
         if key_spelling is None:
@@ -439,7 +453,9 @@ def check_str(res, segs, delim, key):
     res.state(*key)
     case = {"kind": "str", "segments": segs, "delimiter": delim}
     term = P(tuple(seg_part(x) for x in segs))
-    built = T.build_path(term)
+    built = _api(res, lambda: T.build_path(term), case, "path")
+    if built is None:
+        return
     res.count("transitions")
     try:
         parsed = DataPath.from_str(s, delimiter=delim) if delim != "/" else DataPath.from_str(s)
@@ -480,7 +496,9 @@ def check_rule(res, rt, doc_form, cont, style, key):
         spec["condition"] = None
     if doc_form is not None:
         spec["doc"] = fresh(doc_form)
-    built = T.build_rule(rt)
+    built = _api(res, lambda: T.build_rule(rt), case, "rule")
+    if built is None:
+        return
     res.count("transitions")
     try:
         parsed = Rule.from_spec(spec)
@@ -532,7 +550,9 @@ def check_yaml(res, rule_terms, key):
     if not S.jsonable(specs):
         # type objects -> names for YAML
         specs = json.loads(json.dumps(specs, default=lambda t: S.TYPE_NAME[t]))
-    built = T.build_schema(("schema", tuple(rule_terms)))
+    built = _api(res, lambda: T.build_schema(("schema", tuple(rule_terms))), case, "schema")
+    if built is None:
+        return
     texts = [("flow", S.schema_yaml_flow(specs)), ("block", yaml_block({"rules": specs}))]
     for how, text in texts:
         for via in ("text", "file"):
